@@ -116,6 +116,7 @@ def check_grain(g, rec=None):
         return [exc_failure("grain()", gr)]
     if rep in (1, 2):
         ubi = ubi_in          # the free functions below see the same representation
+    ubi_before = np.array(ubi, copy=True)
     G = ubi @ ubi.T
     angle = np.degrees(np.arccos(np.clip((np.trace(U) - 1) / 2, -1, 1)))
     routes = [
@@ -177,6 +178,8 @@ def check_grain(g, rec=None):
             got = getattr(g2, name)
             if not (cell_close(got, exp) if kind == "cell" else close(got, exp)):
                 fails.append(fail("cache", "grain.%s stale after set_ubi" % name, route="grain.set_ubi"))
+    if not np.array_equal(np.asarray(ubi), ubi_before):
+        fails.append(fail("inputs", "one of the routes modified the UBI matrix it was given", route="inputs"))
     if rec is not None:
         oblique = any(abs(x - 90) > 1e-9 for x in g["cell"][3:])
         nt = oblique and not np.allclose(U, np.eye(3))
